@@ -475,6 +475,8 @@ func check(r *core.Run) {
 	}
 	// typedef chains with cycles and unknown bases: the same error list and the same type in every run
 	schema.C05Types(r)
+	// identity lists: the same sequences in every run and load order
+	schema.C05Identities(r)
 	if len(cliCases) > 0 {
 		r.SubmitAll("determ", 'A', cliCases)
 		r.Extra["cli_programs"] = len(cliCases)
